@@ -25,13 +25,29 @@ SetMinI(S) == CHOOSE v \in S : \A u \in S : v <= u
 SetMaxI(S) == CHOOSE v \in S : \A u \in S : v >= u
 
 \* all index orders that sort x ascending (ties in any order)
-RECURSIVE SortOrdersOf(_, _)
-SortOrdersOf(x, rem) ==
+RECURSIVE SortOrdersAllOf(_, _)
+SortOrdersAllOf(x, rem) ==
     IF rem = {} THEN {<<>>}
     ELSE LET m == SetMinI({x[i] : i \in rem})
              c == {i \in rem : x[i] = m}
-         IN  UNION {{<<i>> \o s : s \in SortOrdersOf(x, rem \ {i})} : i \in c}
-SortOrders(x) == SortOrdersOf(x, 1..Len(x))
+         IN  UNION {{<<i>> \o s : s \in SortOrdersAllOf(x, rem \ {i})} : i \in c}
+SortOrdersAll(x) == SortOrdersAllOf(x, 1..Len(x))
+
+\* Reduced set with the same admissible results (checked by TLC: OrderReductionSound in MC_Posterior).
+\* Inside a group of equal values every point carries the same value, so the interpolation only depends
+\* on which weight comes *first* in the group (the segment entering the group) and on the group's total
+\* weight: branch on one representative per distinct weight for the first place, keep the rest in index order.
+RECURSIVE AscSeq(_)
+AscSeq(S) == IF S = {} THEN <<>> ELSE LET m == SetMinI(S) IN <<m>> \o AscSeq(S \ {m})
+RECURSIVE SortOrdersOf(_, _, _)
+SortOrdersOf(x, w, rem) ==
+    IF rem = {} THEN {<<>>}
+    ELSE LET m == SetMinI({x[i] : i \in rem})
+             c == {i \in rem : x[i] = m}
+             reps == {i \in c : \A j \in c : w[j] = w[i] => i <= j}
+             rest == SortOrdersOf(x, w, rem \ c)
+         IN  UNION {{<<i>> \o AscSeq(c \ {i}) \o s : s \in rest} : i \in reps}
+SortOrders(x, w) == SortOrdersOf(x, w, 1..Len(x))
 
 RECURSIVE CumW(_, _, _)
 CumW(p, w, i) == IF i = 0 THEN 0 ELSE w[p[i]] + CumW(p, w, i - 1)       \* cumulative weight of the first i sorted points
@@ -53,8 +69,10 @@ QuantAt(p, x, w, q) ==
              IN  {RAdd(Q(x[p[j]]), RMul(frac, Q(x[p[j + 1]] - x[p[j]])))}
 
 \* (q16, q50, q84) of one call: the three levels share the sort order
-Triples(x, w) == UNION {{<<a, b, c>> : a \in QuantAt(p, x, w, Q16), b \in QuantAt(p, x, w, Q50),
-                                        c \in QuantAt(p, x, w, Q84)} : p \in SortOrders(x)}
+TriplesOver(orders, x, w) == UNION {{<<a, b, c>> : a \in QuantAt(p, x, w, Q16), b \in QuantAt(p, x, w, Q50),
+                                                   c \in QuantAt(p, x, w, Q84)} : p \in orders}
+Triples(x, w)    == TriplesOver(SortOrders(x, w), x, w)
+TriplesAll(x, w) == TriplesOver(SortOrdersAll(x), x, w)
 
 RECURSIVE DotW(_, _, _)
 DotW(x, w, i) == IF i = 0 THEN 0 ELSE w[i] * x[i] + DotW(x, w, i - 1)
